@@ -9,8 +9,21 @@
 From OIDC Require Import Lib C03_Redirect.
 
 Inductive prompt := P_Ok | P_Bad | P_None.      (* "", "none login", "none" *)
-Inductive afault := AF_None | AF_GetClient | AF_Create.   (* refstore.FaultMethod *)
-Inductive cfault := CF_None | CF_ByID | CF_GetClient | CF_SaveCode.
+(* the error VALUE a failing storage call returns: a plain Go error, a typed *oidc.Error
+   (possibly wrapped) with its error code, or a typed error that is redirect-disabled *)
+Inductive errkind := EK_Plain | EK_Typed (code : string) | EK_NoRedirect.
+
+Inductive afault := AF_None | AF_GetClient (k : errkind) | AF_Create (k : errkind).
+Inductive cfault := CF_None | CF_ByID | CF_GetClient (k : errkind) | CF_SaveCode (k : errkind).
+
+(* oidc.DefaultToServerError on that value: the OAuth error code that may travel in a
+   redirect; None = the error must be shown, not redirected *)
+Definition err_code (k : errkind) : option string :=
+  match k with
+  | EK_Plain => Some "server_error"
+  | EK_Typed c => Some c
+  | EK_NoRedirect => None
+  end.
 
 (* an authorization request, abstracted to what decides the answer *)
 Record areq := {
@@ -55,6 +68,7 @@ Section Handlers.
   Variable glob : string -> string -> gres.
   Variable info : string -> uinfo.
   Variable reqobj_supported : bool.
+  Variable notfound : errkind.      (* how the storage reports an unknown client *)
   Variable cs : list client.
 
   Definition loop (u : string) := u_loop (info u).
@@ -85,8 +99,32 @@ Section Handlers.
          | None => OPage 400 "server_error"
          end.
 
-  Definition lookup_client (f : afault) (id : string) : option client :=
-    match f with AF_GetClient => None | _ => find_client cs id end.
+  (* Storage.GetClientByClientID: every way the lookup can fail *)
+  Definition lookup_client (f : afault) (id : string) : errkind + client :=
+    match f with
+    | AF_GetClient k => inl k
+    | _ => match find_client cs id with Some c => inr c | None => inl notfound end
+    end.
+
+  (* AuthRequestError / TryErrorRedirect on a storage error value *)
+  Definition auth_request_error_k (uri rt mode : string) (k : errkind) : out :=
+    match err_code k with
+    | Some code => auth_request_error uri rt mode code
+    | None => OPage 400 ""
+    end.
+  Definition try_error_redirect_k (uri rt mode : string) (k : errkind) : out :=
+    match err_code k with
+    | Some code => try_error_redirect uri rt mode code
+    | None => OPage 400 "invalid_request"
+    end.
+
+  (* WriteError on DefaultToServerError of a storage error value *)
+  Definition legacy_page (k : errkind) : out :=
+    match k with
+    | EK_Plain => OPage 500 "server_error"
+    | EK_Typed c => OPage (if String.eqb c "server_error" then 500 else 400) c
+    | EK_NoRedirect => OPage 400 "invalid_request"
+    end.
 
   Definition new_req (q : areq) : sreq :=
     {| s_client := q_client q; s_uri := q_uri q; s_rt := q_rt q; s_mode := q_mode q;
@@ -94,7 +132,7 @@ Section Handlers.
 
   Definition prompt_bad (p : prompt) := match p with P_Bad => true | _ => false end.
   Definition prompt_none (p : prompt) := match p with P_None => true | _ => false end.
-  Definition fault_create (f : afault) := match f with AF_Create => true | _ => false end.
+  Definition fault_create (f : afault) : option errkind := match f with AF_Create k => Some k | _ => None end.
 
   (* op.Authorize *)
   Definition authorize_provider (st : list sreq) (q : areq) : list sreq * out :=
@@ -104,8 +142,8 @@ Section Handlers.
     else if String.eqb (q_client q) "" then page
     else if String.eqb (q_uri q) "" then page
     else match lookup_client (q_fault q) (q_client q) with
-    | None => page
-    | Some c =>
+    | inl _ => page     (* whatever the storage's error is: ErrInvalidRequestRedirectURI, not redirected *)
+    | inr c =>
       match validate c (q_uri q) (q_rt q) with
       | VOk =>
         let er code := (st, auth_request_error (q_uri q) (q_rt q) (q_mode q) code) in
@@ -115,9 +153,12 @@ Section Handlers.
         else if negb (string_in (q_rt q) (c_rtypes c)) then er "unauthorized_client"
         else if q_hint_bad q then er "login_required"
         else if q_reqobj q then er "request_not_supported"
-        else if fault_create (q_fault q) then er "server_error"
-        else if prompt_none (q_prompt q) then er "login_required"
-        else (st ++ [new_req q], OLogin (c_login c))
+        else match fault_create (q_fault q) with
+        | Some k => (st, auth_request_error_k (q_uri q) (q_rt q) (q_mode q) k)
+        | None =>
+          if prompt_none (q_prompt q) then er "login_required"
+          else (st ++ [new_req q], OLogin (c_login c))
+        end
       | _ => page     (* redirect-disabled errors (F14: including the malformed-glob server_error) *)
       end
     end.
@@ -130,8 +171,8 @@ Section Handlers.
     else if q_reqobj q then (st, OPage 500 "server_error")
     else if String.eqb (q_client q) "" then bad "invalid_request"
     else match lookup_client (q_fault q) (q_client q) with
-    | None => (st, OPage 500 "server_error")
-    | Some c =>
+    | inl k => (st, legacy_page k)
+    | inr c =>
       if String.eqb (q_uri q) "" then (st, OPage 500 "server_error")
       else if prompt_bad (q_prompt q) then bad "invalid_request"
       else if q_noscope q then bad "invalid_request"
@@ -143,10 +184,12 @@ Section Handlers.
         else if negb (string_in (q_rt q) (c_rtypes c)) then bad "unauthorized_client"
         else if q_hint_bad q then bad "login_required"
         else
-          let er code := (st, try_error_redirect (q_uri q) (q_rt q) (q_mode q) code) in
-          if fault_create (q_fault q) then er "server_error"
-          else if prompt_none (q_prompt q) then er "login_required"
-          else (st ++ [new_req q], OLogin (c_login c))
+          match fault_create (q_fault q) with
+          | Some k => (st, try_error_redirect_k (q_uri q) (q_rt q) (q_mode q) k)
+          | None =>
+            if prompt_none (q_prompt q) then (st, try_error_redirect (q_uri q) (q_rt q) (q_mode q) "login_required")
+            else (st ++ [new_req q], OLogin (c_login c))
+          end
       end
     end.
 
@@ -189,13 +232,14 @@ Section Handlers.
         if negb (s_alive s) then page
         else
           let er code := (st, auth_request_error (s_uri s) (s_rt s) (s_mode s) code) in
+          let erk k := (st, auth_request_error_k (s_uri s) (s_rt s) (s_mode s) k) in
           if negb (s_done s) then er "interaction_required"
-          else match f with CF_GetClient => er "server_error" | _ =>
+          else match f with CF_GetClient k => erk k | _ =>
           match find_client cs (s_client s) with
-          | None => er "server_error"
+          | None => erk notfound
           | Some _ =>
             if String.eqb (s_rt s) "code" then
-              match f with CF_SaveCode => er "server_error" | _ => (st, success s) end
+              match f with CF_SaveCode k => erk k | _ => (st, success s) end
             else (update_nth k mark_dead st, success s)
           end end
       end end
